@@ -6,6 +6,7 @@ import logging
 import subprocess
 import sys
 from decimal import Decimal
+from fractions import Fraction
 
 from harness import core
 
@@ -63,6 +64,8 @@ THEOREMS = [
     "C06_key_collision_refuted",
     "C06_row_key_is_lookup_key",
     "C06_row_reaches_site",
+    "C06_requested_ph_decides",
+    "C06_requested_ph_full_resolution",
     "C06_rows_filtered",
     "C06_pipeline_terminus_refuted",
     "C06_nonvacuous",
@@ -119,6 +122,15 @@ def qlit(dec) -> str:
     return f"(({n}) # 100)%Q" if n < 0 else f"({n} # 100)%Q"
 
 
+def qx(x) -> str:
+    """Exact Coq Q literal of a python float (or of a numeric text as float() reads it)."""
+    from fractions import Fraction
+
+    f = Fraction(float(x))
+    n, d = f.numerator, f.denominator
+    return f"(({n}) # {d})%Q" if n < 0 else f"({n} # {d})%Q"
+
+
 def coq_bool(b) -> str:
     return "true" if b else "false"
 
@@ -128,7 +140,7 @@ def coq_residue(r) -> str:
 
 
 def coq_dict(d) -> str:
-    return core.coq_list([f"({core.coq_string(k)}, {qlit(v)})" for k, v in d])
+    return core.coq_list([f"({core.coq_string(k)}, {qx(v)})" for k, v in d])
 
 
 def coq_ff(name) -> str:
@@ -328,7 +340,7 @@ def decision_table(ctx):
             for combo in COMBOS:
                 dicts.append([(k, SITE_OPTS[c]) for k, c in zip(keys, combo) if SITE_OPTS[c] is not None])
             real = [real_decisions(bio, ffname, "7.00", d) for d in dicts]
-            terms.append(f"show_runs {coq_ff(ffname)} {qlit('7.00')} {core.coq_list([coq_dict(d) for d in dicts])} {core.coq_list([coq_residue(r) for r in recs])}")
+            terms.append(f"show_runs {coq_ff(ffname)} {qx('7.00')} {core.coq_list([coq_dict(d) for d in dicts])} {core.coq_list([coq_residue(r) for r in recs])}")
             plan.append((ffname, pos, t, recs, dicts, real))
     return terms, plan
 
@@ -379,11 +391,52 @@ def random_key_cases(ctx, n):
     return cases
 
 
+def near_values(p, rng):
+    """pH values around a pKa p at full float resolution (as repr texts)."""
+    import math
+
+    out = [p]
+    for k in (1, 2, 5):
+        x = y = p
+        for _ in range(k):
+            x, y = math.nextafter(x, math.inf), math.nextafter(y, -math.inf)
+        out += [x, y]
+    for d in (1e-12, 1e-6, 4e-3, 4.9e-3, 5.1e-3, 0.3):
+        out += [p + d, p - d]
+    out += [p + rng.uniform(-5e-3, 5e-3) for _ in range(3)]
+    return [repr(v) for v in out if 0.0 <= v <= 14.0]
+
+
+FULL_RES_PKA = {"ASP": ["3.8", "3.7999999999999994"], "GLU": ["4.503", "4.5"], "HIS": ["6.499999999", "6.5"], "CYS": ["8.3", "8.304999"],
+                "TYR": ["10.095", "10.1"], "LYS": ["10.5", "10.495000001"], "ARG": ["12.5"]}
+
+
+def resolution_key_cases(ctx):
+    """Decision level: pH and pKa both at full float resolution (pKa +- k ulp, +-1e-12 ... +-0.3, random)."""
+    from harness import builder as B
+
+    cases = []
+    for t, pks in FULL_RES_PKA.items():
+        seq, idx = layout(t, "M")
+        bio = B.setup_biomolecule(peptide_pdb(seq))["biomolecule"]
+        recs = residue_records(bio)
+        x = recs[idx]
+        key = key_side(x["name"], x["seq"], x["chain"])
+        for pk in pks[:1] if not ctx.thorough else pks:
+            for ph in near_values(float(pk), ctx.rng):
+                for ffname in ("parse", "amber"):
+                    items = [(key, pk)]
+                    cases.append({"ff": ffname, "ph": ph, "items": items, "recs": recs, "real": real_decisions(bio, ffname, ph, items), "dupkeys": False})
+                    ctx.count("decision:full-resolution")
+    return cases
+
+
 def check_decisions(ctx):
     held = True
     terms, plan = decision_table(ctx)
     rcases = random_key_cases(ctx, 1200 if ctx.thorough else 160)
-    rterms = [f"show_run {coq_ff(c['ff'])} {qlit(c['ph'])} {coq_dict(c['items'])} {core.coq_list([coq_residue(r) for r in c['recs']])}" for c in rcases]
+    rcases += resolution_key_cases(ctx)
+    rterms = [f"show_run {coq_ff(c['ff'])} {qx(c['ph'])} {coq_dict(c['items'])} {core.coq_list([coq_residue(r) for r in c['recs']])}" for c in rcases]
     try:
         res = core.run_cases("C06d", HEADER, terms + rterms, chunk=40)
     except core.CoqEvalError as e:
@@ -529,7 +582,7 @@ def make_rows(seq, pkas, chain=None):
         rows.append({
             "res_num": start + i, "ins_code": getattr(seq, "icode", "") or " ", "res_name": seq[i], "chain_id": chain,
             "group_label": propka_label_py(rtype, start + i, chain), "group_type": "N+" if g == "N+" else "COO" if g in ("C-", "ASP", "GLU") else g,
-            "pKa": float(v), "model_pKa": float(v), "buried": 0.0, "coupled_group": None, "_dec": v, "_group": g,
+            "pKa": float(v), "model_pKa": float(v), "buried": 0.0, "coupled_group": None, "_dec": v, "_group": g, "_val": float(v),
         })
     return rows
 
@@ -544,8 +597,9 @@ def rows_from_df(df):
         if g not in DEFAULT_PROT:
             continue
         r = dict(row)
-        r["_dec"] = f"{row['pKa']:.6f}"
+        r["_dec"] = repr(float(row["pKa"]))
         r["_group"] = g
+        r["_val"] = float(row["pKa"])
         rows.append(r)
     return rows
 
@@ -565,21 +619,61 @@ def parse_pqr_ws(text):
     return out
 
 
-def e2e(ctx, seq, ff, ph, rows, cache={}):  # noqa: B006 - deliberate per-process cache
-    """One pipeline run. rows=None: no titration step (baseline)."""
+ENTRIES = ("parser", "run_pdb2pqr", "namespace")
+
+
+def run_entry(pdb_text, args, ph, workdir, entry):
+    """Like builder.run_pdb2pqr, through another entry point that carries the pH:
+    'run_pdb2pqr' = pdb2pqr.main.run_pdb2pqr(list of strings); 'namespace' = main_driver on a
+    Namespace whose ph attribute is set to the float directly (no text parsing)."""
+    import contextlib
+    import io as _io
+    from pathlib import Path
+
+    from harness import builder as B
+    from pdb2pqr import main as pmain
+
+    wd = Path(workdir)
+    wd.mkdir(parents=True, exist_ok=True)
+    inp, outp = wd / "input.pdb", wd / "output.pqr"
+    inp.write_text(pdb_text, encoding="utf-8")
+    for stale in (outp, outp.with_suffix(".log")):
+        if stale.exists():
+            stale.unlink()
+    res = {"result": None, "exc": None, "pqr_text": None, "messages": []}
+    with B.capture_pdb2pqr_log(logging.WARNING) as records, contextlib.redirect_stderr(_io.StringIO()):
+        try:
+            if entry == "run_pdb2pqr":
+                res["result"] = pmain.run_pdb2pqr([*args, f"--with-ph={ph}", inp, outp])
+            else:
+                ns = pmain.build_main_parser().parse_args([*map(str, args), str(inp), str(outp)])
+                ns.ph = float(ph)
+                res["result"] = pmain.main_driver(ns)
+        except BaseException as exc:  # noqa: BLE001
+            if isinstance(exc, KeyboardInterrupt):
+                raise
+            res["exc"] = exc
+    res["messages"] = [f"{r.levelname}:{r.name}:{r.getMessage()}" for r in records]
+    if outp.exists():
+        res["pqr_text"] = outp.read_text(encoding="utf-8")
+    return res
+
+
+def e2e(ctx, seq, ff, ph, rows, entry="parser", cache={}):  # noqa: B006 - deliberate per-process cache
+    """One pipeline run. rows=None: no titration step (baseline). ph is the REQUESTED pH as text."""
     from harness import builder as B
     from pdb2pqr import biomolecule as pbio
     from pdb2pqr import main as pmain
 
     real = isinstance(rows, str) and rows == "real"
-    key = (skey(seq), ff, ph, "real" if real else json.dumps([(r["group_label"], r["_dec"]) for r in rows]) if rows is not None else None)
+    key = (skey(seq), ff, ph, entry, "real" if real else json.dumps([(r["group_label"], r["_dec"]) for r in rows]) if rows is not None else None)
     if key in cache:
         return cache[key]
     args = [f"--ff={ff}", "--keep-chain", "--whitespace"]
     cap = {}
     orig_rp, orig_ap = pmain.run_propka, pbio.Biomolecule.apply_pka_values
     if rows is not None:
-        args += ["--titration-state-method=propka", f"--with-ph={ph}"]
+        args += ["--titration-state-method=propka"]
         if not real:
             clean = [{k: v for k, v in r.items() if not k.startswith("_")} for r in rows]
             pmain.run_propka = lambda a, b: (clean, "stub")
@@ -590,7 +684,10 @@ def e2e(ctx, seq, ff, ph, rows, cache={}):  # noqa: B006 - deliberate per-proces
 
         pbio.Biomolecule.apply_pka_values = wrapped
     try:
-        r = B.run_pdb2pqr(peptide_pdb(seq), args, workdir=ctx.scratch_dir() / "e2e")
+        if rows is None or entry == "parser":
+            r = B.run_pdb2pqr(peptide_pdb(seq), args + ([f"--with-ph={ph}"] if rows is not None else []), workdir=ctx.scratch_dir() / "e2e")
+        else:
+            r = run_entry(peptide_pdb(seq), args, ph, ctx.scratch_dir() / "e2e", entry)
     finally:
         pmain.run_propka, pbio.Biomolecule.apply_pka_values = orig_rp, orig_ap
     obs = {"exc": None, "cap": cap, "rows": [] if (real or rows is None) else rows, "warnings": [m.split(":", 2)[2] for m in r["messages"] if m.startswith("WARNING")]}
@@ -676,16 +773,27 @@ def case_of(seq, ff, ph, rows, real):
     return c
 
 
-def judge_run(ctx, probe, seq, ff, ph, rows, tag):
+def judge_run(ctx, probe, seq, ff, ph, rows, tag, entry="parser"):
     """Model-independent oracle on one titrated run. Reports through ctx.fail.
     rows: stub rows (make_rows) or "real" (PROPKA itself supplies them)."""
     real = isinstance(rows, str)
-    obs = e2e(ctx, seq, ff, ph, rows)
+    obs = e2e(ctx, seq, ff, ph, rows, entry)
     base = e2e(ctx, seq, ff, None, None)
     rows = obs["rows"] if real else rows
     case = case_of(seq, ff, ph, rows, real)
+    case["entry"] = entry
     name = label_of(seq)
-    phd = Decimal(ph)
+    phf = float(ph)  # the REQUESTED pH: what argparse's type=float makes of the text
+    # identity tie (model: ph_of_args): the float that reaches apply_pka_values is the requested one
+    if obs["cap"]:
+        ctx.cov["correspondence_cases"] += 1
+        got_ph = obs["cap"]["ph"]
+        if not (isinstance(got_ph, float) and got_ph == phf):
+            ctx.cov["correspondence_disagreements"] += 1
+            ctx.count("ph-identity:broken")
+            if sum(b["what"].startswith("Model.Titration.ph_of_args") for b in ctx.broken) < 2:
+                ctx.broke("correspondence-broken", "Model.Titration.ph_of_args (identity) vs the pH main passes to apply_pka_values",
+                          f"requested {ph!r} = {phf!r} through entry {entry!r}; apply_pka_values received {got_ph!r}", case)
     has_term_rows = any(r["_group"] in ("N+", "C-") for r in rows)
     term_keys_passed = any(k.startswith(("N+", "C-")) for k in obs["cap"].get("dict", {}))
     if obs["exc"] is not None:
@@ -727,7 +835,7 @@ def judge_run(ctx, probe, seq, ff, ph, rows, tag):
             if split_ffname(res["ffname"])[1] != "CYX" or "HG" in res["atoms"]:
                 ctx.fail({"defect": "bridged-cys-titrated", "ff": ff, "pos": res["pos"]}, f"{ff} {name} pH {ph}: bridged CYS {res['seq']} {res['chain']} became {res['ffname']} (patches {res['patches']})", case)
             continue
-        wanted = phd < Decimal(r["_dec"])
+        wanted = phf < r["_val"]
         default = DEFAULT_PROT[g]
         got = observed_protonated(g, res)
         side = "below" if wanted else "above"
@@ -873,9 +981,9 @@ def check_rows_to_dict(ctx, runs_seen):
         uniq.setdefault(k, (rows, cap))
     terms, exp = [], []
     for rows, cap in uniq.values():
-        lit = core.coq_list([f"(mkpkarow {core.coq_string(r['res_name'])} {core.coq_Z(r['res_num'])} {core.coq_string(r['chain_id'])} {core.coq_string(r['group_label'])} {qlit(r['_dec'])})" for r in rows])
+        lit = core.coq_list([f"(mkpkarow {core.coq_string(r['res_name'])} {core.coq_Z(r['res_num'])} {core.coq_string(r['chain_id'])} {core.coq_string(r['group_label'])} {qx(r['_val'])})" for r in rows])
         terms.append(f"show_dict {lit}")
-        exp.append("|".join(f"{k}={int(Decimal(repr(v)) * 100)}/100" for k, v in cap.items()))
+        exp.append("|".join(f"{k}={Fraction(float(v)).numerator}/{Fraction(float(v)).denominator}" for k, v in cap.items()))
     if not terms:
         return True
     try:
@@ -980,8 +1088,8 @@ def run_case_(ctx, probe, case):
             rows = make_rows(seq, {(i, g): v for i, g, v in case["pkas"]})
         else:
             rows = [{"res_num": n, "ins_code": " ", "res_name": rn, "chain_id": c, "group_label": propka_label_py(g if g in ("N+", "C-") else rn, n, c),
-                     "group_type": g, "pKa": float(v), "model_pKa": float(v), "buried": 0.0, "coupled_group": None, "_dec": v, "_group": g} for rn, n, c, g, v in case["rows"]]
-        obs = judge_run(ctx, probe, seq, case["ff"], case["ph"], rows, "case")
+                     "group_type": g, "pKa": float(v), "model_pKa": float(v), "buried": 0.0, "coupled_group": None, "_dec": v, "_group": g, "_val": float(v)} for rn, n, c, g, v in case["rows"]]
+        obs = judge_run(ctx, probe, seq, case["ff"], case["ph"], rows, "case", case.get("entry", "parser"))
         if case.get("expect") == "passes" and obs["exc"] is None:
             # regression of a repaired finding: all atoms kept, default state kept, warning logged
             for i, g, _v in case["pkas"]:
@@ -1025,7 +1133,10 @@ def run(ctx):
         "4 positions x 2 sides x 6 force fields, termini at 3 pH values, pH == pKa, pH sweeps of multi-group peptides; peptides numbered "
         "-105.., -2.., 997.., 9995.. and with an insertion code, chains A/B/C, with stub rows in PROPKA's own label layout (derived from real "
         "rows each run) and with PROPKA itself; PROPKA sweeps of a two-chain structure, a disulfide pair (bridged CYS must stay CYX) and a "
-        "peptide with residues pre-named ASH/LYN/CYM/HIP/GLH/TYM; oracle = "
+        "peptide with residues pre-named ASH/LYN/CYM/HIP/GLH/TYM; pH and pKa BOTH at full float resolution (pH = pKa +- k ulp, +-1e-12, "
+        "+-1e-6, +-4e-3, +-4.9e-3, +-5.1e-3, +-0.3, random within 5e-3; pKa values with many decimals), the pH as text in 13 spellings, "
+        "through three entry points (builder parser path, pdb2pqr.main.run_pdb2pqr, main_driver(Namespace)); every run also checks that "
+        "the float reaching apply_pka_values equals float(requested text); oracle (state decided by pKa vs the REQUESTED pH) = "
         "chemistry of the atoms present + direct look-ups in pdb2pqr's loaded force field. A group evaluation is non-trivial when "
         "pH vs pKa asks for the non-default state; distinct by (force field, group, position, side)"
     )
@@ -1074,6 +1185,36 @@ def run(ctx):
         for ph in ("2.00", "12.00"):
             judge_run(ctx, probe, seq, "PARSE", ph, "real", "numbering-real")
             ctx.count("numbering:real-propka-runs")
+    # pH AND pKa at full float resolution (pKa +- k ulp, +-1e-12, +-1e-6, +-4e-3, +-4.9e-3, +-5.1e-3, +-0.3, random within
+    # 5e-3), the pH as text in several spellings, through the three entry points that carry the pH
+    k = 0
+    quick_pick = (0, 1, 2, 9, 10, 11, 12, 13, 14, 19)
+    for t, pks in FULL_RES_PKA.items():
+        sq, idx = layout(t, "M")
+        sq = mkseq(sq)
+        for pk in (pks if (ctx.thorough or hot or t in ("ASP", "GLU")) else pks[:1]):
+            phs = near_values(float(pk), ctx.rng)
+            if not (ctx.thorough or hot):
+                phs = [phs[i] for i in quick_pick if i < len(phs)]
+            rows = make_rows(sq, {(idx, t): pk})
+            for ph in phs:
+                entry = ENTRIES[k % 3]
+                k += 1
+                for ff in (("PARSE", "AMBER") if k % 4 == 0 else ("PARSE",)):
+                    obs = judge_run(ctx, probe, sq, ff, ph, rows, "resolution", entry)
+                    ctx.count(f"resolution:{entry}")
+                    if obs["cap"]:
+                        seen.append((rows, obs["cap"]["dict"]))
+    sq, idx = layout("HIS", "M")
+    sq = mkseq(sq)
+    spell = {"7.0": ("7", "7.0", "7.000001", "6.999999", "07.00", "7e0", "+7.0", "0", "14", "14.0"), "1.0": ("1e0", "0.1e1", "1.0000000000000002"),
+             "7.5": ("07.50", "7.5e0", "7.4999999999999991", "+7.25")}
+    for pk, texts in spell.items():
+        rows = make_rows(sq, {(idx, "HIS"): pk})
+        for n, text in enumerate(texts):
+            for entry in (("parser", "run_pdb2pqr") if (ctx.thorough or hot) else (("parser", "run_pdb2pqr")[n % 2],)):
+                judge_run(ctx, probe, sq, "PARSE", text, rows, "spelling", entry)
+                ctx.count("resolution:spellings")
     # mixed structures with PROPKA itself: two chains, a disulfide, residues pre-named in a variant state
     for st in structures().values():
         for ff in (("AMBER", "PARSE") if not (ctx.thorough or hot) else FFS6):
@@ -1082,7 +1223,7 @@ def run(ctx):
     ds = structures()["disulfide"]
     for ff in ("AMBER", "PARSE"):
         rows = [{"res_num": 2, "ins_code": " ", "res_name": "CYS", "chain_id": "A", "group_label": propka_label_py("CYS", 2, "A"), "group_type": "CYS",
-                 "pKa": 8.0, "model_pKa": 8.0, "buried": 0.0, "coupled_group": None, "_dec": "8.00", "_group": "CYS"}]
+                 "pKa": 8.0, "model_pKa": 8.0, "buried": 0.0, "coupled_group": None, "_dec": "8.00", "_group": "CYS", "_val": 8.0}]
         judge_run(ctx, probe, ds, ff, "12.00", rows, "bridge")
     phs_q = ["0.00", "3.50", "4.20", "5.50", "7.50", "9.50", "11.50", "14.00"]
     phs_t = [f"{x / 4:.2f}" for x in range(0, 57)]
